@@ -72,8 +72,8 @@ namespace sqf
             }
             static std::string from_sqf(std::string_view sview)
             {
-                char start = sview[0];
                 if (sview.length() == 0) { return {}; }
+                char start = sview[0];
                 if (start != '"' && start != '\'') { return {}; }
                 if (sview.length() == 2) { return {}; }
 
